@@ -14,7 +14,8 @@ RULE = ('every BSD syscall / Mach trap decoder (all BSC_* and MSC_* names, all o
         'no other word of the START or END record; (1) changing only START word k never changes the call name, the '
         'arity or a numeric parameter at another position; (3) an enum-named parameter is injective over its domain; '
         '(4) the call part is unchanged when only the END record, the thread id, the timestamps or unrelated nested '
-        'records change, when a stray END precedes the window, and when an earlier unterminated START of the same call exists; '
+        'records change, when a stray END precedes the window, when an earlier unterminated START of the same call exists, and when another thread listed in the '
+        'thread map enters the same call meanwhile; '
         '(5) sentinel: with one START word set to a value that is special somewhere (AT_FDCWD 0xfffffffe, -1, -2, 0, 1, INT_MAX, 2^31, 2^32, ...) '
         'every numeric parameter still shows its own word (a word that fits 32 bits may be shown as a signed int) and no other parameter moves; '
         '(6) rendering a trace twice gives the same text. Non-trivial: four pairwise distinct non-zero START words; distinct by (decoder, START tuple).')
@@ -55,16 +56,20 @@ def distinct_words(name, seed):
     return None
 
 
-def render(name, a, e, lookups=(), tid=0x33, ts0=1000, nested=(), stray_end=False, stale_start=None):
+def render(name, a, e, lookups=(), tid=0x33, ts0=1000, nested=(), stray_end=False, stale_start=None, other_thread=None):
     evs = [EV.E(tid, name, 2, args=[e[0], e[3], e[2], e[1]])] if stray_end else []
     if stale_start is not None:      # an earlier START of the same call that never got its END (lost, or the call never returns)
         evs.append(EV.E(tid, name, 1, args=stale_start))
     evs.append(EV.E(tid, name, 1, args=a))
+    if other_thread is not None:     # another thread enters the same call while this one is inside it
+        evs.append(EV.E(0x55, name, 1, args=other_thread))
     for i, p in enumerate(lookups):
         evs += EV.lookup_events(tid, 50 + i, p)
     evs += list(nested)
     evs.append(EV.E(tid, name, 2, args=e))
-    parser = EV.new_traces_parser()
+    # with another thread in play the pairing object is built on a thread map that already knows both threads (a second
+    # request on one PyKdebugParser, or a dump whose thread map lists them)
+    parser = EV.new_traces_parser() if other_thread is None else EV.new_traces_parser(threads_pids={tid: 10, 0x55: 10, 0x56: 11}, pids_names={10: 'a', 11: 'b'})
     out = [t for t in parser.feed_generator(EV.realize(evs, ts0=ts0)) if t.ktraces[0].tid == tid and
            t.ktraces[0].eventid == EV.eid(name)]
     if len(out) != 1 or out[0].ktraces[0].func_qualifier != 1 or out[0].ktraces[-1].func_qualifier != 2:
@@ -154,6 +159,13 @@ def prop_decoder(ctx, case):
         sc4 = TP.split_call(txt4)
         if sc4 is None or (sc4[0], sc4[1]) != (cname, params):
             raise Violation(f'stale-start-used:{name}', f'{name}: with an earlier unterminated START {other[0]} the call renders {txt4!r} instead of {txt!r}')
+    # (4c) another thread of a known process enters the same call meanwhile: this thread's call still shows its own START
+    if other is not None:
+        txt6 = guard(render, name, a, e, lookups, other_thread=other[0])
+        sc6 = TP.split_call(txt6)
+        if sc6 is None or (sc6[0], sc6[1]) != (cname, params):
+            raise Violation(f'other-thread-start-used:{name}', f'{name}: while another thread (both listed in the thread map) is inside the same call with START {other[0]}, '
+                                                              f'this call renders {txt6!r} instead of {txt!r}')
     # (1) position sensitivity
     for k in range(4):
         b = list(a)
@@ -249,6 +261,11 @@ def run(ctx):
     ns = len(SENTINELS)
     sent = [{'name': n, 'seed': base + 17 * i + r, 'slot': slot, 'value': SENTINELS[r] if r < 2 else SENTINELS[2 + (i + slot + r + ctx.seed) % (ns - 2)]}
             for r in range(ctx.n(3, 2 * ns)) for i, n in enumerate(names()) for slot in range(4)]
+    # ... plus the integer constants each decoder can reach in its own code (vf/dictionary.py)
+    from pykdebugparser.trace_handlers import bsd, mach
+    from .. import dictionary as DI
+    magic = {**DI.magic_table(mach.handlers), **DI.magic_table(bsd.handlers)}
+    sent += [{'name': n, 'seed': base + 19 * i + j, 'slot': slot, 'value': v} for i, n in enumerate(names()) for j, v in enumerate(magic.get(n, [])) for slot in range(4)]
     ctx.run_enum('sentinel', sent, prop_sentinel, exhaustive_label='every decoder x every START slot x special values (quick: AT_FDCWD, 0xffffffff and one of the ten others per slot, rotating with the seed)')
     strat = st.fixed_dictionaries({'name': st.sampled_from(names()), 'seed': st.integers(0, 2 ** 62), 'lookups': st.integers(0, 2)})
     ctx.run_given('decoder', strat, prop_decoder, ctx.n(500, 10000))
